@@ -20,7 +20,8 @@ from ..pipeline import Leg, harness_bin
 ID = 'C08'
 HARNESS_BIN = 'c08'
 RUN_MODULE = 'Run.C08'
-THEOREMS = ['C08_roundtrip', 'C08_roundtrip_every_level', 'C08_zstd_level_is_i32', 'C08_crc_single_byte', 'C08_data_region', 'C08_payload_corruption_detected',
+THEOREMS = ['C08_roundtrip', 'C08_roundtrip_every_level', 'C08_pack_history_roundtrip', 'C08_pack_history_independent',
+            'C08_zstd_level_is_i32', 'C08_crc_single_byte', 'C08_data_region', 'C08_payload_corruption_detected',
             'C08_glue_members_wellformed', 'C08_truncation_detected', 'C08_header_corruption_files_partial', 'C08_local_header_substitution_ignored',
             'C08_extracted_bytes_match_recorded_crc', 'C08_mode_unprotected_refuted', 'C08_stdout_dropped_refuted',
             'C08_optional_member_dropped_refuted', 'C08_roundtrip_unguarded_refuted']
@@ -149,8 +150,32 @@ def gen_name(rng, used, weird=True):
     return n
 
 
+def zst_raw_frame(data):
+    """a valid zstd frame holding `data` in one raw block (single segment, content size in the header)"""
+    n = len(data)
+    assert n < 65536 + 256
+    if n < 256:
+        hdr = b'\x28\xb5\x2f\xfd\x20' + bytes([n])
+    else:
+        hdr = b'\x28\xb5\x2f\xfd\x60' + (n - 256).to_bytes(2, 'little')
+    return hdr + ((n << 3) | 1).to_bytes(3, 'little') + data
+
+
+# contents that ARE zstd data or merely start with the frame magic 28 B5 2F FD: an output file can be a .zst, and a
+# reader/writer pair that signals "compressed or not" in band would mistake them
+ZST_CONTENTS = [b'\x28\xb5\x2f\xfd', b'\x28\xb5\x2f\xfd\x20\x00\x01\x00\x00', zst_raw_frame(b'abc'), zst_raw_frame(b''),
+                b'\x28\xb5\x2f\xfd\x00\x58\x19\x00\x00abc', b'\x28\xb5\x2f\xfdnot a frame at all', b'\x28\xb5\x2f',
+                zst_raw_frame(zst_raw_frame(b'twice')), zst_raw_frame(b'x') + zst_raw_frame(b'y'),
+                zst_raw_frame(bytes((i * 37 + 11) % 251 for i in range(4096))),
+                b'\x50\x2a\x4d\x18\x04\x00\x00\x00skip' + zst_raw_frame(b'after a skippable frame'), b'\x50\x2a\x4d\x18']
+
+
 def gen_content(rng, cls):
     """cls: tiny | small | mid | large"""
+    if cls in ('tiny', 'small') and rng.chance(1, 12):
+        c = rng.choice(ZST_CONTENTS)
+        if cls == 'small' or len(c) <= 16:
+            return c
     if cls == 'tiny':
         n = rng.weighted([(0, 2), (1, 2), (2, 1), (4, 2), (7, 1)])
         return bytes(rng.below(256) for _ in range(n))
@@ -178,7 +203,8 @@ def gen_content(rng, cls):
 # bytes that are not UTF-8, text framed by blanks
 STDIO_SPECIAL = [b'\n', b' ', b'\r\n', b'\t\n\n', b'\x0c', b'\t', b'\r', b'\x0b', b'  \n', b'\n\n\n\n', b'\x00',
                  b'\x00\x00\x00', b'\x00\n', b'\xff', b'\x80', b'\xff\xfe', b'\xc3', b'\xc3\x28', b'\xed\xa0\x80', b'0', b'a',
-                 b'\x1b[0m', b' warning \n', b'\xef\xbb\xbf', b'\x85', b'\xa0', b'\xe2\x80\x83']
+                 b'\x1b[0m', b' warning \n', b'\xef\xbb\xbf', b'\x85', b'\xa0', b'\xe2\x80\x83',
+                 b'\x28\xb5\x2f\xfd', b'\x28\xb5\x2f\xfd\x20\x03\x19\x00\x00abc', b'\x28\xb5\x2f\xfd\x20\x00\x01\x00\x00']
 
 
 def gen_stdio(rng, cls):
@@ -298,6 +324,8 @@ def gen_pack(rng, tier):
     # first: every special stdout/stderr value around one small object (thorough: every single byte too)
     sets = stdio_sets(STDIO_SPECIAL + ([bytes([b]) for b in range(256)] if tier == 'thorough' else
                                        [bytes([b]) for b in (9, 10, 11, 12, 13, 32, 0, 1, 127, 128, 255)]))
+    for c in ZST_CONTENTS:
+        sets.append(dict(objs=[[b'obj', 0o644, c, 0, 1]], so=b'', se=b''))
     for cls, k in zip(('tiny', 'small', 'mid', 'large'), n):
         for _ in range(k):
             sets.append(gen_set(rng, cls))
@@ -838,6 +866,8 @@ def vary_level(rng, sets, every=4):
 def gen_extract(rng, tier):
     n = {'quick': (60, 60, 10, 2), 'thorough': (1500, 1500, 300, 20)}[tier]
     sets = stdio_sets(STDIO_SPECIAL[:12] + [b'\x00', b'\xff\xfe'])
+    for c in ZST_CONTENTS[:10]:
+        sets.append(dict(objs=[[b'out.zst', 0o644, c, 0, 1]], so=b'', se=b''))
     for cls, k in zip(('tiny', 'small', 'mid', 'large'), n):
         for _ in range(k):
             s = gen_set(rng, cls, nmax=5)
@@ -944,6 +974,77 @@ def shrink_read(case):
                 yield [entry, reqs, frames, [[b'trunc', d[1]]], meta]
             else:
                 yield [entry, reqs, frames, [[b'sub', d[1], d[2]]], meta]
+
+
+# ---------------------------------------------------------------------------------------------- history leg
+def history_op(s, frames, fails):
+    """fails: {object index: n} — the reader of that object fails after n bytes"""
+    of, so_f, se_f = frames
+    objs = []
+    for i, (o, f) in enumerate(zip([o for o in s['objs'] if o[4]], of)):
+        objs.append([o[0], mode_sx(o[1]), o[2], f, fails[i] if i in fails else b'none'])
+    return [objs, [s['so'], so_f], [s['se'], se_f]]
+
+
+def gen_history(rng, tier):
+    """one thread packs entry after entry; in some packs reading an output file fails part-way (after 0, 1, half, all
+    of its bytes).  Every entry that IS produced must be exactly what its own inputs give, whatever happened before."""
+    plans = []
+    lost = [b'LOST-BYTES-OF-ANOTHER-COMPILATION ' * 3, [b'text', 3, 3000], [b'rand', 5, 70000], [b'text', 9, 200000],
+            [b'zeros', 150000], b'x']
+
+    def good(i):
+        return dict(objs=[[b'obj', 0o644, b'\x7fELF good %d' % i, 0, 1]], so=b'', se=b'')
+    # fixed minimal histories first: a failed pack, then a good one
+    for c in lost:
+        ln = len(content(c))
+        for n in sorted(set([1, ln // 2, max(ln - 1, 0), ln, 0])):
+            plans.append([(dict(objs=[[b'obj', 0o644, c, 0, 1]], so=b'', se=b''), {0: n}), (good(len(plans)), {})])
+    k = 10 if tier == 'quick' else 400
+    for _ in range(k):
+        ops = []
+        for _ in range(rng.range(2, 6)):
+            st = gen_set(rng, rng.choice(['tiny', 'small', 'small', 'mid']), nmax=3)
+            fails = {}
+            if rng.chance(1, 2) and st['objs']:
+                i = rng.below(len(st['objs']))
+                ln = len(content(st['objs'][i][2]))
+                fails[i] = rng.choice([0, 1, ln // 2, max(ln - 1, 0), ln, ln + 5])
+            ops.append((st, fails))
+        plans.append(ops)
+    flat = [st for ops in plans for st, _ in ops]
+    frames = iter(set_frames(flat))
+    return [[history_op(st, next(frames), fails) for st, fails in ops] for ops in plans]
+
+
+def monitor_history(case, out):
+    if not isinstance(out, list) or len(out) != len(case):
+        return ['malformed implementation output (%d observations for %d packs)' % (len(out) if isinstance(out, list) else -1, len(case))]
+    vs = []
+    failed = 0
+    for k, (op, o) in enumerate(zip(case, out)):
+        fails = [(x[0], x[4]) for x in op[0] if isinstance(x[4], int)]
+        if fails:
+            if o != [b'write_err']:
+                vs.append('pack %d: reading %r fails after %d bytes, yet the writer produced an entry' % (k, fails[0][0][:40], fails[0][1]))
+            failed += 1
+            continue
+        for v in monitor_pack(op, o):
+            vs.append('pack %d on a thread that had %d failed pack(s) before: %s' % (k, failed, v))
+    return vs
+
+
+def stats_history(case, out):
+    ks = ['packs=%d' % len(case)]
+    for op in case:
+        f = [x[4] for x in op[0] if isinstance(x[4], int)]
+        ks.append('op=' + ('fails-after-0' if f and f[0] == 0 else 'fails-part-way' if f else 'good'))
+    return ks
+
+
+def shrink_history(case):
+    for i in range(len(case)):
+        yield case[:i] + case[i + 1:]
 
 
 # ---------------------------------------------------------------------------------------------- level leg
@@ -1140,10 +1241,16 @@ def legs(tier):
         Leg('pack', gen_pack, monitor=safe(monitor_pack, 'monitor'), stats=safe(stats_pack, 'stats'), classify=classify,
             shrink=shrink_pack,
             rule='artifact sets (1-6 members; names ASCII / UTF-8 / up to 1000 bytes; contents 0 B .. 1 MiB literal, text, '
-                 'random, zeros; modes incl. none, 000, setuid/setgid/sticky, file-type bits; stdout/stderr empty, whitespace-only, NUL-only, single bytes, non-UTF-8, or ordinary; the special stdout/stderr values come first around one 4-byte object) '
+                 'random, zeros, and contents that ARE zstd frames / start with the zstd magic; modes incl. none, 000, setuid/setgid/sticky, file-type bits; stdout/stderr empty, whitespace-only, NUL-only, single bytes, non-UTF-8, or ordinary; the special stdout/stderr values come first around one 4-byte object) '
                  '+ writer corner cases (duplicate names, names stdout/stderr, 65535/65540-byte names, no members); '
                  'compared: entry bytes (byte-identical; above 150000 bytes headers byte-identical and payloads by length+CRC) and '
                  'the read-back of every member; distinct by full case text'),
+        Leg('history', gen_history, monitor=safe(monitor_history, 'monitor'), stats=safe(stats_history, 'stats'), classify=classify,
+            shrink=shrink_history,
+            rule='histories: 2-5 packs on ONE thread of the real writer, in half of them the reader handed to put_object fails '
+                 'after 0 / 1 / half / all-but-one / all bytes of an object (minimal histories "failed pack, good pack" with lost '
+                 'contents of 1 B .. 200 kB come first); compared per pack: ( write_err ) or the byte-identical entry and its '
+                 'read-back; the model (pack_history) carries no state from one pack to the next'),
         Leg('level', gen_level, monitor=safe(monitor_level, 'monitor'), stats=safe(stats_level, 'stats'), classify=classify,
             shrink=shrink_pack, shards=4,
             rule='the writer\'s configuration is part of the case space: artifact sets packed with SCCACHE_CACHE_ZSTD_LEVEL unset / '
